@@ -90,26 +90,34 @@ CLAIMED = {
     "C02": dict(
         text=SRV + "C02: SetupDevice answers only a ProveDevice passing every check in a started TO2 session; 67/69/71, module invocation and voucher "
              "replacement only inside the tunnel of a session that proved the device; over whole histories, without such a ProveDevice the peer "
-             "sees only 61/63 and errors (no_proof_no_service).",
-        note=COMMON_NOTE + "The per-request facts (signature verifies under the device certificate key, nonce, UEID, well-formed key-exchange parameter) "
-             "are established by the driver by construction and by standard-library cryptography, not derived in Coq from bytes; the COSE and "
-             "key-exchange byte-level models are those of C13/C14. Faults that need a failing token store or a concurrent interleaving inside one "
+             "sees only 61/63 and errors (no_proof_no_service). The byte-level meaning of 'passing every check' is the executable model "
+             "prove_device_ok (Fdo/Owner.v, theorem C02_proof_bytes: signature under the voucher's device key, this session's nonce, the session's "
+             "GUID, one accepted key-exchange parameter), compared with the real responder on the bytes sent (kind srv.proof: honest, every named "
+             "fault, a parallel session's proof, random byte alterations).",
+        note=COMMON_NOTE + "In the history model the per-request facts are established by the driver by construction; in srv.proof they are computed "
+             "by the model from the bytes, except whether the key exchange accepts xB, which is asked of the live session's kex object (oracle xbok; "
+             "key exchanges are C09/C14). Faults that need a failing token store or a concurrent interleaving inside one "
              "request are outside the sequential model.",
         technique="Rocq proof (invariant over reachable server states, history-level corollary) + differential correspondence on request histories",
         design="4 (C02)"),
     "C06": dict(
         text=SRV + "C06: a redirect blob is stored only for an OwnerSign passing every check presented with the token of a TO0 session whose Hello was "
              "answered; replays and foreign/finished tokens store nothing; 'chain verifies' and 'current owner' are C04's theorems. TTL policy "
-             "outcomes (refuse, shorten, extend, none): stored expiry and reported WaitSeconds compared with the accepted value on the implementation.",
-        note=COMMON_NOTE + "The TTL/expiry arithmetic is monitored on the implementation only (no model). The facts about an OwnerSign body are "
-             "established by the driver by construction.",
+             "outcomes (refuse, shorten, extend, none): stored expiry and reported WaitSeconds compared with the accepted value on the implementation."
+             " The byte-level meaning of 'passing every check' is owner_sign_ok (Fdo/Owner.v, theorem C06_proof_bytes: to0d hash, chain of >=1 "
+             "entries verifies, blob signed by the key the chain ends in, session nonce, policy), compared with the real responder on the bytes sent "
+             "(kind srv.proof).",
+        note=COMMON_NOTE + "The TTL/expiry arithmetic is monitored on the implementation only (no model); the policy callback is an oracle (ttlok). In the "
+             "history model the facts about an OwnerSign body are established by the driver by construction; in srv.proof they are computed from the bytes.",
         technique="Rocq proof (invariant over reachable server states; chain theorems of C04) + differential correspondence on request histories",
         design="4 (C06)"),
     "C07": dict(
         text=SRV + "C07: RVRedirect answers only a ProveToRV passing every check in a started TO1 session, once per session; acceptance of a COSE_Sign1 "
              "(device token, owner blob) is exactly the primitive's yes for that key and Sig_structure (C13). Device side: the library's TO1+TO2 "
              "client given the registered blob unaltered and altered in 11 ways is compared with the model of verifyVoucher's decision; "
-             "registrations are probed right after their expiry instant.",
+             "registrations are probed right after their expiry instant. The byte-level meaning of 'passing every check' is prove_to_rv_ok "
+             "(Fdo/Owner.v, theorem C07_proof_bytes: session nonce, UEID naming a GUID with a live registration, signature under THAT registration's "
+             "device key), compared with the real responder on the bytes sent (kind srv.proof, one and two registered devices).",
         note=COMMON_NOTE + "Expiry is exercised against the wall clock (2 s registrations probed 20 ms and 1.1 s after expiry); time itself is not modelled. "
              "The device-side model covers the redirect signature decision only.",
         technique="Rocq proof (invariant over reachable server states; COSE exactness) + differential correspondence on histories and on the device's redirect decision",
